@@ -10,6 +10,7 @@ ASSUMPTIONS = [
     "padding draws are oracle inputs constrained only by the maxima the code computes; the driver reads the actual draws off the wire and checks them against those maxima",
     "the datagram layout formula (dgram_len) is tied to PacketUnderlay.writeOneSegment by serialising real segments over a recording connection; control segments and acks are built by the hook the way session.go builds them (no payload); whole-session traffic is measured by the second driver (e2e)",
     "stream transport: fields and fragmenting plan only (a stream segment is not a datagram)",
+    "cross-model ties (proofs/SizesCrossProofs.v): the stream plan equals TcpStream.plan_event of C01 on protocol number, fragment number and payload bytes for modes 0..4 (TcpStream's mode numbers >= 5 have no counterpart in the code and are outside the statement); dgram_len equals the length of Wire.udp_datagram of C09 under C09's own hypothesis on the AEAD (|seal p| = |p| + 16); every type a UdpProto endpoint (C02/C13) may emit is one of the seven kinds of Sizes.v and is covered by C14_mtu",
 ]
 
 
@@ -22,7 +23,7 @@ def search(ctx):
     return [run_pair(ctx, "c14", PID, None, tier="quick", seed=ctx.seed + 1000 + i, subdir="search%d" % i) for i in range(1)]
 
 MANIFEST = dict(
-    text="Theorems over the Sizes model (maxFragmentSize, maxPaddingSize with traffic pattern, lowEntropyEncodedPayloadLen, the UDP datagram layout of every segment kind, the fragmenting plan of Session.Write) proved for every MTU in the validated range, every low-entropy mode, every write size and every padding draw within the computed maxima: datagram <= MTU, length fields hold true lengths without wrap, fragments <= 32768 and <= the fragment size, session payload <= 1024, paddings <= 255, <= 256 fragments numbered down to 0, fragments concatenate to the written bytes. Constants (including the MTU range and padding caps, recovered behaviourally) regenerated from /repo; the arithmetic is compared exhaustively with pkg/protocol, the plan with the real Session.Write, the layout with datagrams produced by the real PacketUnderlay.writeOneSegment, and every case is judged against the property text.",
+    text="Theorems over the Sizes model (maxFragmentSize, maxPaddingSize with traffic pattern, lowEntropyEncodedPayloadLen, the UDP datagram layout of every segment kind, the fragmenting plan of Session.Write) proved for every MTU in the validated range, every low-entropy mode, every write size and every padding draw within the computed maxima: datagram <= MTU, length fields hold true lengths without wrap, fragments <= 32768 and <= the fragment size, session payload <= 1024, paddings <= 255, <= 256 fragments numbered down to 0, fragments concatenate to the written bytes; the model is tied by theorems to its neighbours (same stream plan as C01's TcpStream.plan_event, same datagram length as C09's Wire.udp_datagram, every segment type of C02's UdpProto within the MTU). Constants (including the MTU range and padding caps, recovered behaviourally) regenerated from /repo; the arithmetic is compared exhaustively with pkg/protocol, the plan with the real Session.Write, the layout with datagrams produced by the real PacketUnderlay.writeOneSegment, and every case is judged against the property text.",
     note="Datagrams are produced by calling writeOneSegment on segments queued by the real Session.Write (and hook-built control segments), not by running whole sessions over a network; stream transport covered for fields/plan only. MTU outside 1280..1500 is outside the claim.",
-    technique="Coq proof (lia/nia over Z with quot/rem) of size theorems + exhaustive differential run of the extracted model against pkg/protocol + oracle on real serialised datagrams",
+    technique="Coq proof (lia/nia over Z with quot/rem) of size theorems and of agreement with the TcpStream, Wire and UdpProto models + exhaustive differential run of the extracted model against pkg/protocol + oracle on real serialised datagrams",
 )
